@@ -151,7 +151,7 @@ class LiteDRAMAvalonMM2Native(LiteXModule):
                     NextValue(burst_count, burst_count - 1),
                     NextValue(address, address + burst_increment)
                 )
-            ).Else(
+            ).Elif(burst_count == 0,
                 avalon.waitrequest.eq(1),
                 # Wait for the FIFO to be empty
                 If((cmd_fifo.level == 0) & (wdata_fifo.level == 1) & port.wdata.ready,
